@@ -528,7 +528,7 @@ CORPUS = [
 def run(ctx):
     ctx.coq_props()
     rng = ctx.rng
-    n = 700 if ctx.tier == "quick" else 6000
+    n = 520 if ctx.tier == "quick" else 6000
     cases = [{"a": a, "b": b, "rtol": rt, "atol": at, "tag": "corpus"} for a, b, rt, at in CORPUS]
     while len(cases) < n:
         pool = rng.sample(LABELS, rng.choice([2, 3, 3, 3, 4, 5]))
